@@ -13,7 +13,7 @@ from symx.stubs import stubbed
 META = dict(
     bounds=dict(
         quick="programs gaussian/orca (+unknown); 1, 2 and 40 atoms (two symbolic probe atoms, concrete filler) with "
-              "elements from {1, 2, 10, 11, 54, 99, 100, 118}; all real coordinates that fit the 10.6f column, and (jobs wide-coordinates, one atom) "
+              "elements from {1, 2, 10, 11, 54, 99, 100, 118} (one job per program with every element 1..118); all real coordinates that fit the 10.6f column, and (jobs wide-coordinates, one atom) "
               "coordinates in (-1e4, 1e5) angstrom that make the printed field one or two characters wider; all "
               "real charge in [-20, 20] and spin polarisation in [-8, 8] (set, absent, or derived from restricted "
               "orbitals with symbolic occupations); every run type incl. None and upper case; default template and 3 user "
@@ -111,7 +111,7 @@ def _parse(program, tname, text, natom):
 
 
 def h_write_input(ctx, program="gaussian", natom=2, tname="default", chg="set", spin="set", custom_atom_line=False,
-                  twin=False, wide=False):
+                  twin=False, wide=False, zall=False):
     import iodata.api as api
     import iodata.inputs.common as common
     import iodata.inputs.gaussian as gmod
@@ -120,7 +120,7 @@ def h_write_input(ctx, program="gaussian", natom=2, tname="default", chg="set", 
     import iodata.orbitals as O
     import iodata.attrutils as A
     from iodata.utils import FileFormatError, WriteInputError
-    zmenu = [1, 10, 118] if wide else [1, 2, 10, 11, 54, 99, 100, 118]
+    zmenu = [1, 10, 118] if wide else ([1, 2, 10, 11, 54, 99, 100, 118] if not zall else list(range(1, 119)))
     if wide:
         # coordinates wider than the default column: the fields grow (Python formatting) and must stay separated
         ctx.scratch["width_policy"] = "over"
@@ -156,7 +156,7 @@ def h_write_input(ctx, program="gaussian", natom=2, tname="default", chg="set", 
             core_q[probes[0]] = ctx.real("qcore", lo=0, hi=30, default=7.0)
             kw["atcorenums"] = core_q
             kw["nelec"] = ctx.real("nelec", lo=0, hi=60, default=8.0)
-        run_type = ctx.choice([None, "opt"] if wide else [None, "energy", "energy_force", "opt", "scan", "freq", "OPT", "Freq"],
+        run_type = ctx.choice([None, "opt"] if wide else ["freq"] if zall else [None, "energy", "energy_force", "opt", "scan", "freq", "OPT", "Freq"],
                               label="run_type")
         lot, title = ctx.choice([(None, None), ("B3LYP", "my title here")], label="lot,title")
         kw["run_type"] = run_type
@@ -292,6 +292,8 @@ def jobs(tier):
                        dict(program=program, natom=2, tname="default", custom_atom_line=True), max_validate=5))
         out.append(job("C19", f"write_input[{program},failing-atom-line]", M, "h_write_input",
                        dict(program=program, natom=2, tname="default", custom_atom_line="raises"), max_validate=12))
+        out.append(job("C19", f"write_input[{program},every-element]", M, "h_write_input",
+                       dict(program=program, natom=1, tname="default", zall=True), budget_s=300, max_validate=6))
         out.append(job("C19", f"write_input[{program},wide-coordinates]", M, "h_write_input",
                        dict(program=program, natom=1, tname="default", wide=True), budget_s=300, max_validate=6))
     out.append(job("C19", "write_input[unknown-program]", M, "h_write_input", dict(program="nwchem", natom=1),
